@@ -1,6 +1,7 @@
 import PepitModel.Algebra
 import PepitModel.Matrices
 import PepitModel.Pairs
+import PepitModel.Partition
 import PepitModel.QForm
 import PepitModel.GenClasses
 
@@ -459,7 +460,7 @@ orthogonality relations are generated again -/
 def addPartitionConstraints (p : Nat) : M Unit := do
   let pr ← getPart p
   let vals := pr.blocks.map (·.2)
-  let mut cs := pr.cons.filter (fun c => !pr.ortho.contains c)
+  let mut cs := partKeep pr.cons pr.ortho
   let mut gen : List Nat := []
   for xi in vals do
     for xj in vals do
